@@ -182,6 +182,9 @@ def execute(cases_, tier, seed):
             hist["rejected:" + status] = hist.get("rejected:" + status, 0) + 1
             if p.get("family") == "default" and not p.get("default_valid") and status == "err":
                 continue   # an invalid default must be an error (C06)
+            if p.get("sup") is False and status in ("err", "panic"):
+                hist["rejected-outside-fragment"] = hist.get("rejected-outside-fragment", 0) + 1
+                continue   # outside the supported fragment typify may decline a schema (Err or its explicit unimplemented!/todo! arms)
             msg = (bad_op or {}).get("msg", "")
             res.violations.append(Violation(wc.key, "rejected:" + status, "%s: supported schema %s at add: %s" % (wc.id, "panics" if status == "panic" else status, str(msg)[:160]),
                                             p, expected="ingest Ok", observed=bad_op or wc.answer, features=feats, items=[str(msg)[:80]]))
